@@ -318,13 +318,13 @@ def handle (op : String) (fs : List (String × String)) : String :=
   else if op == "layout.ligd" then
     -- D: proportional (by widths) ∧ no GSUB ∧ liga enabled ⇒ the standard ligatures whose glyphs are
     -- mapped are applied, longest first: glyph ids and texts of the real output must be those of
-    -- `applyLig (ligTable cmap)` on the cmap-mapped text
+    -- the SPEC `specLigApply` (longest match first, independent of the order of the source table)
     match (getField fs "map").bind parseNatMap, (getField fs "text").bind (natList ","),
           (getField fs "got").bind parseGlyphs with
     | some cm, some text, some got =>
       let cmap : Nat → Nat := fun r => (lookupNat cm r).getD 0
       let seq0 : List Glyph := text.map fun r => ⟨cmap r, [r], 0⟩
-      let want := applyLig (ligTable cmap) seq0.length seq0
+      let want := specLigApply (specCands cmap) seq0.length seq0
       if want.map (fun g => (g.gid, g.text)) == got.map (fun g => (g.gid, g.text)) then "ok" else "bad"
     | _, _, _ => "bad-case"
   else if op == "layout.kernadv" then
